@@ -8,6 +8,9 @@ Line-protocol front end of the C16 model (requests after the leading `C16` field
      ops     : `;`-separated   name,arg,arg,…      (handles are decimal object numbers)
      values  : n | t | f | i<int> | y<byte> | s<hex> | r<handle> | _ (absent)
   reply: per step, `|`-separated:  implRes ; implState ; tag ; (= | specRes ; specState)
+     builtins of the "operand untouched, result independent" class (Risor.C16.BOp):
+       sortedby,r,lt|gt|le|ge|always|never,k|_   xsorted,r  xreversed,r  tolist,r  toset,r
+       keysof,r  mitems,r  lfilter,r,ne|eq|all|nothing,v  leach,r  leachacc,r,acc  lchunk,r,n
      tag = `map` / `bytes` when the step is one on which today's code is known to leave the
      reference semantics (see `Risor.C16.findingTag`), `-` otherwise
 -/
@@ -65,8 +68,40 @@ def parseCb (s : String) : Option Impl.Cb :=
   | "one" => some .one
   | _ => none
 
+def parseCmpFn (s : String) : Option CmpFn :=
+  match s with
+  | "lt" => some .lt
+  | "gt" => some .gt
+  | "le" => some .le
+  | "ge" => some .ge
+  | "always" => some .always
+  | "never" => some .never
+  | _ => none
+
+def parsePred (s : String) : Option Pred :=
+  match s with
+  | "ne" => some .ne
+  | "eq" => some .eq
+  | "all" => some .all
+  | "nothing" => some .nothing
+  | _ => none
+
+def parseOptNat (s : String) : Option (Option Nat) :=
+  if s = "_" then some none else s.toNat?.map some
+
 def parseOp (s : String) : Option Op :=
   match s.splitOn "," with
+  | ["sortedby", r, f, k] => do pure (.bi (.sortedBy (← r.toNat?) (← parseCmpFn f) (← parseOptNat k)))
+  | ["xsorted", r] => do pure (.bi (.sorted (← r.toNat?)))
+  | ["xreversed", r] => do pure (.bi (.reversed (← r.toNat?)))
+  | ["tolist", r] => do pure (.bi (.toList (← r.toNat?)))
+  | ["toset", r] => do pure (.bi (.toSet (← r.toNat?)))
+  | ["keysof", r] => do pure (.bi (.keysOf (← r.toNat?)))
+  | ["mitems", r] => do pure (.bi (.items (← r.toNat?)))
+  | ["lfilter", r, p, v] => do pure (.bi (.filter (← r.toNat?) (← parsePred p) (← parseVal v)))
+  | ["leach", r] => do pure (.bi (.each (← r.toNat?)))
+  | ["leachacc", r, acc] => do pure (.bi (.eachAcc (← r.toNat?) (← acc.toNat?)))
+  | ["lchunk", r, n] => do pure (.bi (.chunk (← r.toNat?) (← parseVal n)))
   | ["lget", r, i] => do pure (.lGet (← r.toNat?) (← parseVal i))
   | ["lslice", r, a, b] => do pure (.lSlice (← r.toNat?) (← parseOpt a) (← parseOpt b))
   | ["lset", r, i, v] => do pure (.lSet (← r.toNat?) (← parseVal i) (← parseVal v))
